@@ -1336,7 +1336,12 @@ func (fr *frame) makeSlice(x *ssa.MakeSlice, st *State, g string) {
 		esz = 1
 	}
 	// runtime.makeslice panics (recoverably) when the length is negative, exceeds the capacity, or the size overflows / exceeds maxAlloc (2^48)
-	fr.hazard("makelen", g, fmt.Sprintf("(and (<= 0 %s) (<= %s %s) (<= (* %s %d) 281474976710656))", n, n, c, c, esz), x.Pos(), "make: length non-negative, within capacity, size within the runtime's limit")
+	if fr.boundedBySize(x.Cap) {
+		// as large as something that already exists (plus a constant): the size check of the runtime cannot fail for it in practice
+		fr.hazard("makelen", g, fmt.Sprintf("(and (<= 0 %s) (<= %s %s))", n, n, c), x.Pos(), "make: length non-negative and within capacity")
+	} else {
+		fr.hazard("makelen", g, fmt.Sprintf("(and (<= 0 %s) (<= %s %s) (<= (* %s %d) 281474976710656))", n, n, c, c, esz), x.Pos(), "make: length non-negative, within capacity, size within the runtime's limit")
+	}
 	if _, isConst := x.Cap.(*ssa.Const); !isConst && !fr.boundedBySize(x.Cap) {
 		if !vc.declared["MEMCAP"] {
 			vc.declare("MEMCAP", "Int")
